@@ -181,7 +181,7 @@ func (g *tg) str() {
 }
 
 var keyPool = []string{`"a"`, `"b"`, `"c"`, `""`, `"0"`, `"1"`, `"2"`, `"10"`, `"01"`, `"7"`, `"4294967294"`, `"4294967295"`,
-	`"-1"`, `"1.5"`, `"__proto__"`, `"length"`, `"constructor"`, `"\u0061"`, `"\u0031"`, `"__proto_\u005f"`, `"\u0062"`, `"1e3"`, `"9"`, `"00"`}
+	`"-1"`, `"1.5"`, `"__proto__"`, `"__proto__"`, `"__proto__"`, `"length"`, `"constructor"`, `"\u0061"`, `"\u0031"`, `"__proto_\u005f"`, `"\u0062"`, `"1e3"`, `"9"`, `"00"`}
 
 func (g *tg) key(used *[]string) {
 	r := g.r
@@ -203,6 +203,9 @@ func (g *tg) key(used *[]string) {
 func (g *tg) value(d int) {
 	r := g.r
 	k := r.Pick(6, 8, 22, 20, 22, 22)
+	if d < g.maxD && d > 0 && g.maxD >= 4 && r.Chance(40) {
+		k = 4 + r.Intn(2)
+	}
 	if d >= g.maxD && k >= 4 {
 		k = 2 + r.Intn(2)
 	}
@@ -544,8 +547,14 @@ func (g *gen) space() *V {
 	}
 }
 
-func (g *gen) replacer() *R {
+func (g *gen) replacer(v *V) *R {
 	r := g.r
+	var present [][]uint16
+	walkV(v, func(x *V) {
+		for _, p := range x.P {
+			present = append(present, p.K)
+		}
+	})
 	switch r.Pick(60, 25, 15) {
 	case 0:
 		return &R{T: "none"}
@@ -555,9 +564,22 @@ func (g *gen) replacer() *R {
 	n := r.Pick(10, 20, 25, 25, 12, 8)
 	l := []*V{}
 	for i := 0; i < n; i++ {
+		if len(l) > 0 && r.Chance(22) {
+			// repeat an earlier entry (the allow-list must be de-duplicated), sometimes in another spelling
+			e := l[r.Intn(len(l))]
+			if e.T == "str" && r.Chance(30) {
+				e = &V{T: "boxstr", S: e.S}
+			}
+			l = append(l, e)
+			continue
+		}
 		switch r.Pick(50, 20, 8, 8, 14) {
 		case 0:
-			l = append(l, &V{T: "str", S: vKeys[r.Intn(len(vKeys))]})
+			if len(present) > 0 && r.Chance(55) {
+				l = append(l, &V{T: "str", S: present[r.Intn(len(present))]})
+			} else {
+				l = append(l, &V{T: "str", S: vKeys[r.Intn(len(vKeys))]})
+			}
 		case 1:
 			if r.Chance(10) {
 				l = append(l, &V{T: "num", N: &Num{Sp: []string{"negzero", "nan", "inf"}[r.Intn(3)]}})
@@ -578,11 +600,12 @@ func (g *gen) replacer() *R {
 func (g *gen) nextStr() Case {
 	r := g.r
 	maxD := 1 + r.Pick(10, 30, 30, 18, 6, 3, 2, 1)
-	return Case{K: "str", V: g.value(0, maxD, 0, false), R: g.replacer(), Sp: g.space()}
+	v := g.value(0, maxD, 0, false)
+	return Case{K: "str", V: v, R: g.replacer(v), Sp: g.space()}
 }
 
 func (g *gen) next() Case {
-	if len(g.pending) > 0 || g.r.Chance(67) {
+	if len(g.pending) > 0 || g.r.Chance(40) {
 		return g.nextParse()
 	}
 	return g.nextStr()
